@@ -29,7 +29,7 @@ ASSUMPTIONS = [
 def _dyadic(draw, tier):
     g = draw(gen.int_train_lists(2, 2, **gen.sizes(tier)))
     c = gen.to_times(g)
-    c["mrts"] = draw(gen.mrts_for(g))
+    c["mrts"] = draw(gen.mrts_for(g, allow_auto=True))
     c["max_tau"] = draw(gen.maxtau_for(g))
     c["compiled"] = draw(st.booleans())
     c["domain"] = "dyadic"
@@ -60,7 +60,7 @@ PHASES = [
 
 
 def _settings(case):
-    m = Fr(case["mrts"] or 0)
+    m = ps.mrts_exact(case)
     mt = case.get("max_tau")
     mt = Fr(mt) if mt else None
     return m, mt
@@ -137,7 +137,7 @@ def run_case(case, ctx):
     # the per-spike indicator used for filtering, both argument orders
     impl = single_impl(ctx, case["compiled"])
     mtv = float(case["max_tau"] or 0.0)
-    mv = float(case["mrts"] or 0.0)
+    mv = float(m)
     ca = set(i for i, _ in pairs)
     cb = set(j for _, j in pairs)
     c12 = ctx.call("single_12", impl, st1.spikes, st2.spikes, st1.t_start, st1.t_end, mtv, mv)
